@@ -235,6 +235,9 @@ pub fn property() -> Property {
     let xi = "EXACT-ARITHMETIC regime, inverses: on the same nearly singular but exactly evaluable 4x4 matrices inverted()/invert() must return the exact adjugate over the exact determinant (exactly when det is a power of two, within 2 eps = reciprocal + product rounding otherwise), both layouts, scaled by powers of two; on axis permutation * scales +-2^k + dyadic translation all three inverses (+ in-place) must be exact";
     tape!("inverse-exact-f32", xi, 96, 4_000, 200_000, exact::inverse_exact::<f32>);
     tape!("inverse-exact-f64", xi, 96, 4_000, 200_000, exact::inverse_exact::<f64>);
+    let xd = "determinant at the edge of the float range with ordinary entries (a small dyadic matrix times row/column powers of two whose exponents sum to the target): |det| subnormal with finite or overflowing reciprocal, around MIN_POSITIVE, within 2^12 of MAX, reciprocal subnormal: invert() == inverted() in everything observable (both layouts), and where the base is exactly evaluable inside the full float range (subnormal grid included) and adj/det is reachable through a representable reciprocal, inverted() is the exact inverse";
+    tape!("inverse-det-edge-f32", xd, 128, 3_000, 200_000, exact::inverse_det_edge::<f32>);
+    tape!("inverse-det-edge-f64", xd, 128, 3_000, 200_000, exact::inverse_det_edge::<f64>);
     Property {
         id: "C06",
         rule: "generated matrices with small rational / float entries (general), rational rotations from integer quaternions times translation (rigid), times per-axis scale of either sign (TRS); singular matrices are discarded and counted; non-trivial = no zero entry in the upper-left 3x3 (whole matrix for determinants), A != A^T, and non-uniform scale for TRS; distinct = distinct consumed tape prefix. Regime checks (*-structured, *-wide): an exact rational base matrix of moderate magnitude from a labelled structured family, times an exact power-of-two row/column scaling M' = diag(2^r) M diag(2^c) (all entries; linear part and translation of an affine matrix independently; per-axis scale exponents over the whole documented domain of the affine inverse; per row and column for determinants); vek's result is scaled back exactly and compared with the exact rational inverse / determinant at the base level. Non-trivial there = at most 5 zeros in the upper-left 3x3, A != A^T and (floats) tolerance <= |inverse|/64 (structured); rotation without zero entry and non-uniform scale resp. non-zero translation (TRS / rigid wide); |det| <= 2^16 eps * sum|terms| (exact regime); fewer than N*N-N zero entries and A != A^T (determinants)",
@@ -248,6 +251,7 @@ pub fn property() -> Property {
             "general inverse on structured families, entry-wise: |d inv_ij| <= 64 eps ((perm|minor_ji| + |inv_ij| perm|M|)/|det| + |inv_ij|) at the base level (a-priori bound of a signed-monomial evaluation with constant ~10; structural zeros drop out, so the linear part of an affine matrix never sees the size of its translation)",
             "float-rounded rotations (*-rounded): the rotation is computed in f64 (sin/cos, Rodrigues, via a unit quaternion) and rounded to the domain; the reference S^-1 R^T [I | -t] comes from the f64 rotation, the two-sided residual is evaluated in doubled precision (Dot2) on the matrix exactly as stored and must be <= 16 eps (64 eps in the f64 domain, whose rotations are themselves only orthogonal to ~12 eps) * {3 | 3 m_j/m_i | 6|t| | 4|t|/m_i}, the size of the terms of that entry; a rotation block off by less than ~50 eps (angle below 2^-17 in f32) is therefore not distinguished from rounding",
             "exact-arithmetic regime (*-exact, f32 and f64): a case is accepted only if (1) every product of 1..N non-zero entries from distinct rows and columns has at most 24 / 53 significant bits and (2) for every square minor the larger of (sum of its positive, sum of its negative signed Leibniz monomials), divided by 2^(smallest monomial exponent), has at most 24 / 53 bits (verified per case in i128; the power-of-two scaling is kept inside the range window). Then every sub-product and every sub-sum of signed monomials of one minor is representable, so a Leibniz sum in any order, a cofactor expansion and vek's 2x2-block formulas (the same monomials regrouped) are exact with or without fma. Asserted: determinant() == exact determinant bit for bit (including exactly 0 for exactly singular cases); inverted()[i][j] == adj_ij / det exactly when det is +-2^k, and within 2 eps (one reciprocal + one product rounding, or one division) otherwise, decided in integer arithmetic; on axis permutation * (+-2^k) scales + dyadic translation all three inverses are exact. An evaluation that forms other intermediates (e.g. pivoted elimination) is not covered by this exactness argument. The float-conditioning discard of the structured families (|det| < 256 eps sum|terms|) does not apply here: no rounding occurs",
+            "determinant at the edge of the range (inverse-det-edge): entries m * 2^z are placed exactly (also on the subnormal grid). invert() must equal inverted() in every entry (NaN matching NaN) on EVERY generated matrix, whatever the determinant does (subnormal, reciprocal overflowing to inf, near MAX) - no oracle is involved. inverted() itself is asserted to be the exact adj/det only when the base is exactly evaluable inside the full finite range of the type (no intermediate bit below 2^-149 / 2^-1074, none above MAX) AND the reciprocal of the determinant is representable (a power of two inside the grid) or a normal number with normal quotients; where 1/det overflows (|det| <= 2^-128 in f32, 2^-1024 in f64) vek returns inf/NaN although the inverse itself may be representable - that is the over/underflow of a reciprocal-based evaluation and is not asserted",
             "affine fast inverse: the documented domain is |column|^2 > T::epsilon() (the epsilon substitution branch); per-axis scales are kept at s^2 >= 1.75 epsilon (|s| >= 2^-11 in f32, 2^-25 in f64 and Rat, whose epsilon is 2^-52) and <= 2^21 (f32) / 2^41 (f64) / 2^31 (Rat); the substitution branch itself (negligibly small scales) is outside the property and is not exercised",
         ],
         checks,
